@@ -14,8 +14,17 @@ ID = 'C06'
 LEVEL = 'fault_enumeration'
 TECHNIQUE = 'bounded-exhaustive words (tolerant vs strict differential) + exhaustive stray-closer/garbage suffixes on generated documents'
 
-SPECS = {'quick': dict(R=5, L=3, A=3, Z=3), 'thorough': dict(R=6, L=4, A=4, Z=4)}
+SPECS = {'quick': dict(R=5, L=3, A=3, Z=3, CR=4), 'thorough': dict(R=6, L=4, A=4, Z=4, CR=5)}
 CLOSERS = ['}', ']', '\\)', '\\]', '$', '\\end{itemize}']
+
+
+# termination under repetition: head . unit^n . tail for every head, unit, tail of small menus and n in SCALE_N
+SCALE_HEADS = ['', '\\begin{', '\\end{', '\\begin{itemize}', '{', '[', '$', '\\(', '\\[', '\\textbf', '\\item[', '\\sqrt[', '\\frac', '%',
+               '\\verb|', '\\begin{verbatim}', '\\begin{equation}', '\\', '\\section*[']
+SCALE_UNITS = ['a', ' ', 'a ', '{', '}', '[', ']', '\\item[', '\\sqrt[', '\\textbf', '\\textbf{', '$', '$$', '\\(', '\\)', '\\x', '\\begin{a}', '\\end{a}',
+               '\\begin{', '\n', '\n\n', '%\n', '~', '\\\\', '\\frac', 'a.b-c:', '{[', '[{', '\\begin{itemize}[', '\\mo[', '\\mmix*[']
+SCALE_TAILS = ['', '}', ']', '$']
+SCALE_N = {'quick': (12, 40), 'thorough': (12, 40, 120)}
 
 
 def garbage_words(maxlen=2):
@@ -29,11 +38,13 @@ def garbage_words(maxlen=2):
 def plan(tier):
     spec = SPECS[tier]
     shards = [('be', sh) for sh in sweeps.shards(spec)]
-    ddrule = ''
+    shards += [('scale', hi) for hi in range(len(SCALE_HEADS))]
+    ddrule = ('; termination under repetition: head . unit^n . tail for %d heads x %d units x %d tails, n in %r, default and custom context, '
+              'tolerant and legacy entry points, CPU budget %ds per parse' % (len(SCALE_HEADS), len(SCALE_UNITS), len(SCALE_TAILS), SCALE_N[tier], 4))
     try:
         from mc import docgen
         shards += [('suffix', sh) for sh in docgen.shards(tier, purpose='prefix')]
-        ddrule = ('; fault part: ' + docgen.describe(tier, purpose='prefix') + ' (those ending in a closed construct) followed by each stray '
+        ddrule += ('; fault part: ' + docgen.describe(tier, purpose='prefix') + ' (those ending in a closed construct) followed by each stray '
                   'closer of %r and each garbage word of length <= 1 over the raw alphabet (<= 2 for single-item documents in the '
                   'thorough tier)' % (CLOSERS,))
     except ImportError:
@@ -124,9 +135,41 @@ def _expected_prefix(doc_text, ctx):
     return canon.canon_node(res[1])[3]
 
 
+def check_scale(s, ctx, acc):
+    case = dict(s=s, ctx=ctx)
+    acc.count('evaluations')
+    acc.count('nontrivial')
+    acc.count('scale_inputs')
+    import sys
+    for via, fn in (('parse_content', lambda: contexts.parse(s, ctx, True)), ('get_latex_nodes', lambda: _legacy_get_latex_nodes(s, ctx))):
+        old = sys.getrecursionlimit()
+        sys.setrecursionlimit(1000)        # CPython's default (the engine's workers raise it for their own needs)
+        try:
+            st, res = run_guarded(fn)
+        finally:
+            sys.setrecursionlimit(old)
+        if st == 'timeout':
+            acc.violation(ID, 'scale', case, dict(kind='hang', via=via))
+            return
+        if st == 'exc':
+            sig = dict(kind='exception', via=via, exc=type(res).__name__)
+            if not isinstance(res, RecursionError):
+                sig['frame'] = exc_frame(res)       # where the interpreter's recursion limit happens to be hit is arbitrary
+            acc.violation(ID, 'scale', case, sig, observed=repr(res)[:300])
+            return
+
+
 def run_shard(shard, tier, acc):
     sub, sh = shard
-    if sub == 'be':
+    if sub == 'scale':
+        head = SCALE_HEADS[sh]
+        for unit in SCALE_UNITS:
+            for tail in SCALE_TAILS:
+                for n in SCALE_N[tier]:
+                    for ctx in ('D', 'A'):
+                        check_scale(head + unit * n + tail, ctx, acc)
+        acc.sample(dict(head=head, units=len(SCALE_UNITS), n=list(SCALE_N[tier])), force=(sh == 1))
+    elif sub == 'be':
         for s, ctx in sweeps.iter_shard(SPECS[tier], sh):
             check_word(s, ctx, acc)
             acc.sample(dict(s=s, ctx=ctx))
@@ -157,6 +200,10 @@ def run_shard(shard, tier, acc):
 
 
 def replay(sub, case):
+    if sub == 'scale':
+        acc = engine.Acc()
+        check_scale(case['s'], case['ctx'], acc)
+        return acc.violations
     acc = engine.Acc()
     if sub == 'be':
         check_word(case['s'], case['ctx'], acc)
